@@ -82,9 +82,10 @@ def run(chk, repo):
     dig = lookup_key_rules(chk, repo, 'C12.a')
     lm = repo.func(IDX + 'IndexDir.load_metadata')
     chk.uses(lm)
-    chk.ob('C12.a', 'metadata reload rebuilds CleavageParams from the stored key', lm.where,
-           "cleavage_params = CleavageParams(**it['cleavage_params'])" in [norm_stmt(s) for s in ast.walk(lm.node) if isinstance(s, ast.Assign)],
-           'stored parameters are not restored through CleavageParams(**stored)', key=lm.qual + '::restore', fn=lm.qual)
+    restored = restore_rule(chk, repo, lm)
+    if restored is not None:
+        chk.ob('C12.a', 'metadata reload rebuilds CleavageParams from the stored key', lm.where, restored,
+               'stored parameters are not restored through CleavageParams(**stored)', key=lm.qual + '::restore', fn=lm.qual)
     cj = repo.func(IDX + 'CanonicalPoolMetadata.jsonfy')
     chk.ob('C12.a', 'entry serialises filename, index and its cleavage parameters', cj.where,
            "'cleavage_params': self.cleavage_params.jsonfy()" in unparse(cj.node) and "'filename': self.filename" in unparse(cj.node),
@@ -378,20 +379,114 @@ def fstr(node):
     return unparse(node)
 
 
+def restore_rule(chk, repo, lm):
+    """every CanonicalPoolMetadata built by load_metadata gets cleavage_params = CleavageParams(**<entry>['cleavage_params']) where
+    <entry> ranges over <loaded json>['canonical_pools'] (loop or comprehension variable); names are expanded to their definitions"""
+    from sa import sem
+    ctor = [c for c in ast.walk(lm.node) if isinstance(c, ast.Call) and call_name(c) == 'CanonicalPoolMetadata']
+    if not ctor:
+        chk.undecided('C12.a', 'metadata restore', lm.where, 'load_metadata builds no CanonicalPoolMetadata')
+        return None
+    cfi = repo.func(IDX + 'CanonicalPoolMetadata.__init__')
+    ok = True
+    for c in ctor:
+        v = kwarg(c, 'cleavage_params')
+        if v is None:
+            ps = [p for p in cfi.params() if p != 'self']
+            i = ps.index('cleavage_params') if 'cleavage_params' in ps else None
+            v = c.args[i] if i is not None and i < len(c.args) and not any(isinstance(a, ast.Starred) for a in c.args) else None
+        if v is None:
+            ok = False
+            continue
+        st = repo.enclosing_stmt(c)
+        v = sem.expand_names(lm.node, st, v, allow_calls=('CleavageParams', 'load'))
+        good = isinstance(v, ast.Call) and call_name(v) == 'CleavageParams' and not v.args and len(v.keywords) == 1 and v.keywords[0].arg is None
+        src = v.keywords[0].value if good else None
+        good = good and isinstance(src, ast.Subscript) and isinstance(src.value, ast.Name) and isinstance(src.slice, ast.Constant) \
+            and src.slice.value == 'cleavage_params'
+        if good:
+            # the entry variable is bound by a for / comprehension over <json>['canonical_pools']
+            var, bound = src.value.id, False
+            for n in ast.walk(lm.node):
+                its = [(n.target, n.iter, n)] if isinstance(n, ast.For) else \
+                    ([(g.target, g.iter, n) for g in n.generators] if isinstance(n, (ast.ListComp, ast.GeneratorExp, ast.SetComp)) else [])
+                for tgt, it, owner in its:
+                    if isinstance(tgt, ast.Name) and tgt.id == var and any(x is c for x in ast.walk(owner)):
+                        ost = owner if isinstance(owner, ast.stmt) else repo.enclosing_stmt(owner)
+                        it2 = sem.expand_names(lm.node, ost, it, keep=(var,))
+                        bound = isinstance(it2, ast.Subscript) and isinstance(it2.slice, ast.Constant) and it2.slice.value == 'canonical_pools'
+            good = bound
+        ok = ok and good
+    return ok
+
+
+def full_compare(chk, repo, rid, gp):
+    """get_canonical_pool evaluated: every entry it can return is an element of self.canonical_pools for which the complete
+    jsonfy(graph_params=False) dictionary of the request equals that of the entry; None otherwise.  Two shapes are read from the
+    evaluated outcomes: the search loop (return under the equality) and next(<generator with the equality as filter>, None)."""
+    from sa.peval import PEval, Unk, show
+    REQ = 'cleavage_params.jsonfy(graph_params=False)'
+    def is_eq(text, item):
+        ent = f"{item}.cleavage_params.jsonfy(graph_params=False)"
+        return text.replace(' ', '') in ((REQ + '==' + ent).replace(' ', ''), (ent + '==' + REQ).replace(' ', ''))
+    try:
+        outs = PEval(split_unknown=True).run(gp.node, {})
+    except (ValueError, OverflowError) as e:
+        chk.undecided(rid, "lookup comparison", gp.where, f"get_canonical_pool cannot be evaluated: {e}")
+        return None
+    rets = [o for o in outs if o.kind == 'return']
+    if any(o.kind == 'fall' for o in outs):
+        rets.append(None)
+    hits = [o for o in rets if o is not None and o.value is not None]
+    if not hits:
+        return False
+    ok = True
+    for o in hits:
+        t = show(o.value)
+        if t == '<item of self.canonical_pools>':
+            conds = [k for k, v in o.assumed.items() if v is True and k != '<loop not entered>']
+            neg = [k for k, v in o.assumed.items() if v is False]
+            ok = ok and len(conds) == 1 and not neg and is_eq(conds[0], t)
+            continue
+        try:
+            e = ast.parse(t, mode='eval').body
+        except SyntaxError:
+            e = None
+        if isinstance(e, ast.Call) and unparse(e.func) == 'next' and len(e.args) == 2 and unparse(e.args[1]) == 'None' \
+                and isinstance(e.args[0], ast.GeneratorExp) and len(e.args[0].generators) == 1:
+            g = e.args[0].generators[0]
+            ok = ok and isinstance(g.target, ast.Name) and unparse(e.args[0].elt) == g.target.id and unparse(g.iter) == 'self.canonical_pools' \
+                and len(g.ifs) == 1 and is_eq(unparse(g.ifs[0]), g.target.id)
+            continue
+        chk.undecided(rid, "lookup comparison", gp.where, f"get_canonical_pool returns `{t[:120]}`: neither the search loop nor next(<filtered generator>, None)")
+        return None
+    if not any(o is None or o.value is None for o in rets) and not any('next(' in show(o.value) for o in hits):
+        ok = False
+    return ok
+
+
 def lookup_key_rules(chk, repo, rid):
     """Pool lookup key == digest parameters; lookup compares complete keys (shared with C04)."""
     js = repo.func('params:CleavageParams.jsonfy')
     pool = repo.func('aa.AminoAcidSeqDict:AminoAcidSeqDict.create_unique_peptide_pool')
     chk.uses(js, pool)
-    base = None
-    graph = None
-    for n in walk_no_nested(js.node):
-        if isinstance(n, ast.Assign) and unparse(n.targets[0]) == 'data' and isinstance(n.value, ast.Dict):
-            base = {k.value: unparse(v) for k, v in zip(n.value.keys, n.value.values)}
-        if isinstance(n, ast.If) and unparse(n.test) == 'graph_params':
-            for c in G.find_calls(n, 'update'):
-                if c.args and isinstance(c.args[0], ast.Dict):
-                    graph = [k.value for k in c.args[0].keys]
+    from sa.peval import PEval, Unk, known, repo_consts, show
+    base = graph = None
+    try:
+        pe = PEval(resolve_const=repo_consts(repo, js.module), split_unknown=False, unroll=True)
+        outs = {}
+        for flag in (False, True):
+            rs = [o for o in pe.run(js.node, {'graph_params': flag}) if o.kind == 'return']
+            if len(rs) != 1 or not isinstance(rs[0].value, dict):
+                raise ValueError(f"jsonfy(graph_params={flag}) does not evaluate to one dictionary with constant keys")
+            outs[flag] = {k: show(v) for k, v in rs[0].value.items()}
+        base = outs[False]
+        graph = [k for k in outs[True] if k not in base]
+        if any(outs[True].get(k) != v for k, v in base.items()):
+            raise ValueError('jsonfy(graph_params=True) does not extend jsonfy(graph_params=False)')
+    except (ValueError, OverflowError) as e:
+        chk.undecided(rid, "jsonfy key dictionary", js.where, f"CleavageParams.jsonfy cannot be evaluated to its key dictionary: {e}")
+        base, graph = None, None
     dig = [p for p in pool.params() if p not in ('self', 'anno')]
     want = {('enzyme' if p == 'rule' else p) for p in dig}
     chk.ob(rid, 'base key set == parameters of create_unique_peptide_pool (rule->enzyme)', js.where,
@@ -403,9 +498,9 @@ def lookup_key_rules(chk, repo, rid):
            f"graph keys {graph}", key=js.qual + '::graph-keys', fn=js.qual)
     gp = repo.func(IDX + 'IndexMetadata.get_canonical_pool')
     chk.uses(gp)
-    txt = [norm_stmt(s) for s in ast.walk(gp.node) if isinstance(s, (ast.Assign, ast.If, ast.Return))]
-    ok = 'this = cleavage_params.jsonfy(graph_params=False)' in txt and 'that = pool.cleavage_params.jsonfy(graph_params=False)' in txt \
-        and 'if this == that' in txt and 'return pool' in txt and 'return None' in txt
+    ok = full_compare(chk, repo, rid, gp)
+    if ok is None:
+        return dig
     chk.ob(rid, 'lookup compares the full key dictionaries of request and entry', gp.where, ok,
            'get_canonical_pool no longer compares the complete jsonfy(graph_params=False) dictionaries (partial key => pools of other parameter sets match)',
            key=gp.qual + '::full-compare', fn=gp.qual)
